@@ -368,7 +368,8 @@ void run_self_once(const char* entry, const std::string& variant, const typename
       std::string after = s.dump();
       // model outcome: BadAlloc thrown iff an allocation was attempted
       int usable = (ok > 0 && after != "<dump failed>") ? 1 : 0;
-      emit("O", entry, variant, f ? "BadAlloc" : "noalloc", 0, r, -1, (!mutates ? (s.t() == proto) : 1), usable, 1, 0, "");
+      std::unique_ptr<T> ref(Dom::clone(proto));
+      emit("O", entry, variant, f ? "BadAlloc" : "noalloc", 0, r, -1, (!mutates ? (s.t() == *ref) : 1), usable, 1, 0, "");
     }
     if (live != base) if (!quiet) std::printf("L|%s|%s|oom pass leaked %ld blocks\n", entry, variant.c_str(), live - base);
   }
@@ -379,6 +380,9 @@ void run_self_once(const char* entry, const std::string& variant, const typename
   {
     Obj<Dom> s(proto);
     T* twin = Dom::clone(proto);
+    // private reference copy: comparing against the caller's `proto` would minimize IT lazily, and its growth
+    // (it outlives this block) would be counted by the block ledger
+    std::unique_ptr<T> ref(Dom::clone(proto));
     if (w) w->snap();
     m = mirror([&] { return mir(*twin); }, mv);
     seen.clear();
@@ -389,7 +393,7 @@ void run_self_once(const char* entry, const std::string& variant, const typename
     dump_eq = (after == tw || s.t() == *twin) ? 1 : 0;
     if (!dump_eq) note = "handle: " + after.substr(0, 120) + " // twin: " + tw.substr(0, 120);
     // const handle: the VALUE must be unchanged (the representation may legitimately be minimized lazily)
-    const_ok = ((mutates || s.t() == proto) && (!w || w->same())) ? 1 : 0;
+    const_ok = ((mutates || s.t() == *ref) && (!w || w->same())) ? 1 : 0;
     int ok = Dom::cok(s.h);
     usable = (ok == (twin->OK() ? 1 : 0)) ? 1 : 0;
     if (extra && m == "ret" && r >= 0) extra_ok = extra() ? 1 : 0;
